@@ -178,7 +178,7 @@ EndBlock ==
   /\ res' = "eb" /\ UNCHANGED <<nextId, keyver, height>>
 
 Next == \/ (nextId <= MaxMsgs /\ \E k \in {"ref", "slc", "uv"} : Put(k))
-        \/ \E v \in Vals, id \in 1..MaxMsgs, mode \in {"good", "stale", "badkey", "otherchain", "garbage"} : Sign(v, id, mode)
+        \/ \E v \in Vals, id \in 1..MaxMsgs, mode \in {"good", "stale", "badkey", "otherchain", "oldkey", "garbage"} : Sign(v, id, mode)
         \/ \E v \in Vals, id \in 1..MaxMsgs, x \in EstValues : Estimate(v, id, x)
         \/ \E v \in Vals, id \in 1..MaxMsgs, e \in EvValues : Evidence(v, id, e)
         \/ \E v \in Vals, id \in 1..MaxMsgs : SetPAD(v, id) \/ SetErr(v, id)
